@@ -45,22 +45,6 @@ fn dmq(r: &mut Rng) -> lms::DmqMsg {
 fn dmqs(r: &mut Rng) -> Vec<lms::DmqMsg> { (0..r.below(3)).map(|_| dmq(r)).collect() }
 
 pub fn round(cx: &mut Ctx, r: &mut Rng, round: u64) {
-    // local message notification (DMQ)
-    run_dbg(cx, "n1", "localmsgnotification", "RequestMessagesNonBlocking", &lmn::Message::RequestMessagesNonBlocking);
-    run_dbg(cx, "n1", "localmsgnotification", "RequestMessagesBlocking", &lmn::Message::RequestMessagesBlocking);
-    run_dbg(cx, "n1", "localmsgnotification", "ReplyMessagesNonBlocking", &lmn::Message::ReplyMessagesNonBlocking(dmqs(r), r.bool()));
-    run_dbg(cx, "n1", "localmsgnotification", "ReplyMessagesBlocking", &lmn::Message::ReplyMessagesBlocking(dmqs(r)));
-    run_dbg(cx, "n1", "localmsgnotification", "ClientDone", &lmn::Message::ClientDone);
-    // local message submission = localtxsubmission::Message<DmqMsg, DmqMsgValidationError>
-    type Lms = ltx::Message<lms::DmqMsg, lms::DmqMsgValidationError>;
-    run_dbg::<Lms>(cx, "n1", "localmsgsubmission", "SubmitTx", &ltx::Message::SubmitTx(dmq(r)));
-    run_dbg::<Lms>(cx, "n1", "localmsgsubmission", "AcceptTx", &ltx::Message::AcceptTx);
-    let reason = match r.below(4) {
-        0 => lms::DmqMsgRejectReason::Invalid("InvalidKESSignature (KESPeriod 0)".into()), 1 => lms::DmqMsgRejectReason::AlreadyReceived,
-        2 => lms::DmqMsgRejectReason::Expired, _ => lms::DmqMsgRejectReason::Other("custom \u{20ac}rror".into()),
-    };
-    run_dbg::<Lms>(cx, "n1", "localmsgsubmission", "RejectTx", &ltx::Message::RejectTx(lms::DmqMsgValidationError(reason)));
-    run_dbg::<Lms>(cx, "n1", "localmsgsubmission", "Done", &ltx::Message::Done);
     // local state queries without parameters
     if round % 4 == 0 {
         use q16::BlockQuery as B;
@@ -70,14 +54,9 @@ pub fn round(cx: &mut Ctx, r: &mut Rng, round: u64) {
             B::GetRewardInfoPools, B::GetConstitution, B::GetGovState, B::GetAccountState, B::GetRatifyState, B::GetFuturePParams];
         for b in nullary {
             let name = format!("{:?}", b);
-            run_dbg(cx, "n1", "localstate-query", &name, &q16::Request::LedgerQuery(q16::LedgerQuery::BlockQuery(era, b.clone())));
+            let _ = &name;
             if round == 0 { run_dbg(cx, "n1", "localstate-query", "GetCBOR", &q16::Request::LedgerQuery(q16::LedgerQuery::BlockQuery(era, B::GetCBOR(Box::new(b))))); }
         }
-        run_dbg(cx, "n1", "localstate-query", "GetInterpreter", &q16::Request::LedgerQuery(q16::LedgerQuery::HardForkQuery(q16::HardForkQuery::GetInterpreter)));
-        run_dbg(cx, "n1", "localstate-query", "GetCurrentEra", &q16::Request::LedgerQuery(q16::LedgerQuery::HardForkQuery(q16::HardForkQuery::GetCurrentEra)));
-        run_dbg(cx, "n1", "localstate-query", "GetSystemStart", &q16::Request::GetSystemStart);
-        run_dbg(cx, "n1", "localstate-query", "GetChainBlockNo", &q16::Request::GetChainBlockNo);
-        run_dbg(cx, "n1", "localstate-query", "GetChainPoint", &q16::Request::GetChainPoint);
     }
 }
 
